@@ -11,9 +11,11 @@ pkg=$(grep -m1 '^package ' "$out/demo_test.go" | awk '{print $2}' | sed 's/_test
 case "$pkg" in dblib) dir=. ;; *) dir=$pkg ;; esac
 [ -d "$d/$dir" ] || dir=$(cd "$d" && grep -rl "^package $pkg\$" --include=*.go . | head -1 | xargs dirname)
 cp "$out/demo_test.go" "$d/$dir/zz_demo_test.go"
-demo_clean=FAIL; (cd "$d" && timeout 600 go test -tags verif -count=1 -run 'Demo' ./$dir/ >"$d/demo_clean.log" 2>&1) && demo_clean=pass
+# run exactly the tests the demonstration file defines
+runre="^($(grep -oE '^func Test[A-Za-z0-9_]+' "$out/demo_test.go" | sed 's/^func //' | paste -sd'|'))\$"
+demo_clean=FAIL; (cd "$d" && timeout 600 go test -tags verif -count=1 -run "$runre" ./$dir/ >"$d/demo_clean.log" 2>&1) && demo_clean=pass
 if ! (cd "$d" && patch -p1 -s < "$out/patch.diff" >/dev/null 2>&1); then echo "SEED $id/$x PATCH-FAILED"; rm -rf "$d"; exit 0; fi
-demo_patched=PASS; (cd "$d" && timeout 600 go test -tags verif -count=1 -run 'Demo' ./$dir/ >"$d/demo_patched.log" 2>&1) || demo_patched=fail
+demo_patched=PASS; (cd "$d" && timeout 600 go test -tags verif -count=1 -run "$runre" ./$dir/ >"$d/demo_patched.log" 2>&1) || demo_patched=fail
 rm "$d/$dir/zz_demo_test.go"
 suite=FAIL; (cd "$d" && go build ./... && go vet ./... >/dev/null 2>&1; go test -vet=off -count=1 ./... >"$d/suite.log" 2>&1) && suite=ok
 res=$(VERIF_REPO="$d" python3 /verif/vcheck.py "$id" 2>&1); rc=$?
